@@ -78,6 +78,12 @@ def parse_consts(text):
         mm = re.search(r"_0 = const (-?\d+)_(\w+);", body)
         if mm:
             out[m.group(1)] = (int(mm.group(1)), mm.group(2))
+            continue
+        # `A op B` of two literals (e.g. 64 * 1024): `_1 = MulWithOverflow(const 64_usize, const 1024_usize); ... _0 = move (_1.0: usize);`
+        mm = re.search(r"_1 = (Mul|Add|Sub)WithOverflow\(const (\d+)_(\w+), const (\d+)_\w+\);", body)
+        if mm and re.search(r"_0 = move \(_1\.0: \w+\);", body):
+            x, y = int(mm.group(2)), int(mm.group(4))
+            out[m.group(1)] = ({"Mul": x * y, "Add": x + y, "Sub": x - y}[mm.group(1)], mm.group(3))
     # trivially constant items are printed on one line:  const NAME: u32 = const 1048576_u32;
     for m in re.finditer(r"^const (\S+): (\w+) = const (-?\d+)_(\w+);", text, re.M):
         out[m.group(1)] = (int(m.group(3)), m.group(4))
